@@ -56,3 +56,7 @@ C('C27', 'history + structural-key model over weakref-tracked ctypes requested t
 C('C32', 'determinism across fresh processes/hash seeds + icontract postcondition on ffiplatform.flatten (explicit inverse parser) + recorded CRC32 inputs decoded back to the inputs',
   'Exploration: random (cdef list incl. include(), preamble, nested keyword) inputs with equivalent respellings (must share key/name) and 20 kinds of near-miss neighbours (must differ); hashed key recorded by wrapping binascii.crc32 and decoded back; names compared over 6 processes with different PYTHONHASHSEED.',
   'Texts are NUL-free except for the probe of the recorded finding; keyword arguments = Extension kwds + tag + engine choice.')
+
+C('C35', 'reference model + icontract postconditions on flags_from_pkgconfig/merge_flags, driven through a stub pkg-config binary first on PATH',
+  'Exploration: random package lists and token sequences (prefixed, look-alike and other tokens, mixed whitespace, empty and very long outputs) and 9 kinds of failing runs (exit status, signal, undecodable output, backslashes, missing/non-executable binary); every keyword list compared with the generator-structured expectation and the text model; failures must raise PkgConfigError only.',
+  'Whitespace = ASCII whitespace as pkg-config emits it (tokens with non-ASCII whitespace are only counted); the stub answers exactly the command lines cffi is documented to use.')
